@@ -120,11 +120,11 @@ func (c *Ctx) buildInto(dst reflect.Value, s *SExp) {
 			return
 		}
 		full := reflect.MakeSlice(t, n+spare, n+spare)
-		fillSpare(full, n)
 		c.slices[k] = full
 		for i := 0; i < n; i++ {
 			c.buildInto(full.Index(i), s.List[3+i])
 		}
+		fillSpare(full, n)
 		dst.Set(full.Slice3(0, n, n+spare))
 	case reflect.Array:
 		for i := 0; i < t.Len(); i++ {
@@ -365,8 +365,11 @@ func CopyAnswer(dst string, eq, shape, alias, srcSame bool) string {
 	return strings.ReplaceAll(dst, " ", ",") + ";eq=" + b01(eq) + ";shape=" + b01(shape) + ";alias=" + b01(alias) + ";src=" + b01(srcSame)
 }
 
-// fillSpare writes a sentinel into the elements of an integer slice that lie beyond its length: code that
-// writes there (an append that "pads" its argument) changes memory its argument shares with others.
+// fillSpare writes into the elements of a slice that lie beyond its length. Integers get a sentinel: code that
+// writes there (an append that "pads" its argument) changes memory its argument shares with others. Elements that
+// hold references get a stale copy of the last element within the length (what `copy(s[i:], s[i+1:]); s = s[:len(s)-1]`
+// leaves behind): code that grows the slice into its capacity and works on what it finds there shares memory with
+// an element that is part of the slice.
 func fillSpare(full reflect.Value, n int) {
 	for i := n; i < full.Len(); i++ {
 		switch e := full.Index(i); e.Kind() {
@@ -374,6 +377,10 @@ func fillSpare(full reflect.Value, n int) {
 			e.SetUint(0xA5)
 		case reflect.Int8, reflect.Int16, reflect.Int32, reflect.Int64, reflect.Int:
 			e.SetInt(0x5A)
+		case reflect.Slice, reflect.Ptr, reflect.Map, reflect.Struct, reflect.Array:
+			if n > 0 {
+				e.Set(full.Index(n - 1))
+			}
 		}
 	}
 }
